@@ -6,7 +6,7 @@ From Memchr Require Import Params Base.Res Base.ListX Sub.IsEqual Sub.Pair Mem.W
 Extraction "extracted.ml"
   is_equal is_prefix is_suffix is_equal_raw
   pair_with_ranker pair_with_indices default_rank
-  backend_find backend_rfind backend_count x86_choice
+  backend_find backend_rfind backend_count x86_choice backend_find_raw backend_rfind_raw backend_count_raw
   iter_new iter_run
   rk_new rk_new_rev rk_find rk_rfind so_new so_find
   pw_new pw_min pw_find pw_find_prefilter pf_new pf_find_prefilter find_spec rfind_spec
